@@ -50,6 +50,21 @@ CHECKS = {
    text="All 125 (thorough 625) assignments of {Quai lock byte 0/1/2, Qi, Quai + work share} to 3 (4) consecutive blocks of a 27-block prime/region/zone history, each crossed with an attempt to list the included share again 1..4 blocks later. Per block the coinbase ETXs emitted are recomputed from chain data (rewarded block three back, its shares, entropy weights, exchange rate of the prime terminus) and must match in number, beneficiary, data and amount; every executed Quai coinbase must show up as exactly one balance increase of the dedicated miner account at exactly execution height + lock depth with exactly the lockup-adjusted amount (minus the account-creation fee on first credit) and nowhere else; every executed Qi coinbase must have produced outputs owned by the miner, locked until exactly that height and worth exactly the adjusted amount; a block listing an already included share is rejected.",
    note="Trusts: scaled constants incl. BlocksPerMonth=2 (so that lock bytes are legal), pre-KawPow reward rules (entropy-weighted split), histories without user fees. Not covered: contract-held lockups (accumulation/claim through the lockup precompile), reorganisations across unlock heights, per-algorithm share rewards after the fork.",
    design="2/C13"),
+ "C03": dict(
+   technique="bounded exhaustive mutation enumeration: every single-field protobuf mutation, wire bit flip and prefix of signed transactions; full boundary product of signature values over three ingest paths; all call sequences on the sender cache; all key-to-input assignments through the real ProcessQiTx / pool validators",
+   text="135 Quai baselines (3 keys x 5 templates x 3 chain ids x 3 locations) x 174 single-field mutations of the signed protobuf, every wire bit flip and prefix, verified under every chain id and location: a mutated transaction yields an error or another sender, never the original; the V x R x S boundary product (zero, N-1, N, half-N+-1, high-S twin) is rejected on the protobuf, RLP and in-memory paths; every Sender/Hash call sequence of depth 2 (3) on one object never returns a sender cached for another chain id; for Qi every assignment of keys to owners, pubkey fields and ordered (MuSig2) signing lists x (presented tx, signed tx) pairs through the real ProcessQiTx(checkSig=true) and pool validators is accepted only when exactly the owners signed exactly this transaction; wire mutations with compressed, uncompressed and hybrid public keys; pool-validates-A-then-block-processes-B histories for the hash-keyed sender cache.",
+   note="Trusts: hardness of ECDSA/Schnorr; finite menus; the hash-cache part models only the 3-line 'skip signature check on a hash hit' lookup of Process, the verdicts come from the real code. Built by a helper agent, reviewed and integrated (reports/C03.md).",
+   design="2/C03"),
+ "C16": dict(
+   technique="exhaustive enumeration of the first-byte x ledger-bit space over every address constructor/decoder and node location against a reference predicate; BFS over StateDB/EVM mutators; exhaustive output-class grid through the real ProcessQiTx",
+   text="(classify) 256 first bytes x 4 ledger bytes x 3 tails through every constructor and decoder (bytes of length 0-33, [20]byte, hex, big.Int, proto, RLP, text, JSON, mixed-case, Scan, transaction address fields, pubkey / CREATE / CREATE2 derivation, GrindContract) at 9 (thorough: all) node locations: zone, ledger and internal/external verdicts must agree with the reference rule applied to the 20 bytes the object holds and with each other. (state) BFS over 127 StateDB / evm.Call / Create / Create2 / contract operations with 8 address classes incl. forged Address objects: live objects and the committed account trie only ever hold in-zone Quai accounts, creation returns an in-zone Quai address or an error. (qitx) the real ProcessQiTx on signed wire transactions over output class x address length x data kind x fork regime x eligibility: every stored UTXO has a 20-byte in-zone Qi owner.",
+   note="21 known findings (one root cause: BytesToAddress classifies the uncropped input; decoders without a location parameter; the pre-fork Qi-wrapping rule) are listed in known_findings.json. Not covered: UTXO creation inside Process / worker (C01, C13 drive those). Built by a helper agent, reviewed and integrated (reports/C16.md).",
+   design="2/C16"),
+ "C18": dict(
+   technique="exhaustive operation-history enumeration on the real Trie / SecureTrie with rebuild-from-content oracle; exhaustive single-bit proof corruption; exhaustive key-subset and list-length sweeps for StackTrie / DeriveSha",
+   text="Every operation history of length <=4 (thorough 5: 37 M) over update / update-empty / delete / hash / commit+reload / flush+reload / reference-dereference / copy / fork on colliding raw keys ('', a, ab, abc, b) and on secure-trie preimages whose hashes share 1-3 nibbles, with 2/3/33-byte values: every Get equals the map model, the root equals a trie rebuilt from the content in sorted and in reverse order and the StackTrie, retained copies are unchanged; Prove/VerifyProof yields the model value or absence for every key; every single-bit flip of every proof node (2.3 M / 5.4 M corruptions) is rejected; all subsets of 10 (13) two-byte keys agree between Trie and StackTrie; DeriveSha(StackTrie) equals DeriveSha(Trie) for list lengths 0..130 (300) x 6 item sizes.",
+   note="Trusts: keccak; VerifyRangeProof and depth-6 histories are not covered; proofs are modelled as the list of blobs re-keyed by the verifier (what core/state.proofList ships). Built by a helper agent, reviewed and integrated (reports/C18.md).",
+   design="2/C18"),
 }
 
 NOT_YET = "check not built yet in this session (planned; see DESIGN.md section 2)"
